@@ -128,6 +128,36 @@ func C12(e *Env) {
 		}
 		addr := p.HostPort()
 		w := &model.World{Root: root, AllowWrite: true, Views: FullViews, Probe: func() error { return host.Probe(addr) }}
+		// cold start: before anything has been served by this process, several clients at once ask for
+		// generated images of trees nobody has opened before (the sessions below run alone first, which
+		// would warm every per-name / per-tree memo and hide unsynchronised first fills)
+		{
+			var cw sync.WaitGroup
+			cstart := make(chan struct{})
+			for k := 0; k < min(rd.n, 12); k++ {
+				dir := fmt.Sprintf("cold/r%02d_c%02d", ri, k)
+				must(os.MkdirAll(filepath.Join(root, dir, "sub"), 0o755))
+				for f := 0; f < 25; f++ {
+					must(os.WriteFile(filepath.Join(root, dir, []string{"", "sub"}[f%2], fmt.Sprintf("n%02d_%02d_%02d_%x.bin", ri, k, f, rng.Int63())), tree.Content(int64(f+k), int64(1+f*41)), 0o644))
+				}
+				reqs := []wire.Req{wire.P(wire.OpOpen, "/***DVD***/"+dir), wire.Read(70000, 20000), wire.Crit(4096, 32768), wire.P(wire.OpStat, "/***DVD***/"+dir)}
+				cw.Add(1)
+				go func() {
+					defer cw.Done()
+					<-cstart
+					res := RunLockstepOpt(addr, w, reqs, e.Watchdog, LockOpt{})
+					run.Eval(1)
+					if res.Fail != nil {
+						run.Violate("interference-"+res.Fail.Rule, "cold-start "+res.Fail.Feature, fmt.Sprintf("[round %d: cold start, %d clients building images of never-seen trees at once, GOMAXPROCS=%d] %s", ri, min(rd.n, 12), rd.procs, res.Fail.Detail),
+							map[string]any{"round": rd, "requests": trimReqs(reqs), "transcript": tailStr(res.Log, 10)})
+					} else {
+						run.Sig("cold-start image build ok procs=%d bin=%v", rd.procs, rd.bin)
+					}
+				}()
+			}
+			close(cstart)
+			cw.Wait()
+		}
 		var wg sync.WaitGroup
 		start := make(chan struct{})
 		for c := 0; c < rd.n; c++ {
